@@ -127,6 +127,26 @@ def step (s : DSt) (line : String) : DSt × String :=
         ({ s with env := some env, st := some st, specOff := 0, rest := s.bytes }, s!"ok @{st.offset} | ok @0")
       | none => (s, "bad-op")
     | _, _, _, _ => (s, "bad-op")
+  | ["rc", amount, mode, seed, span] =>
+    -- util::ReadCompressed::Read(buf, amount) until 0 over *plain* (uncompressed) data: the sizes returned
+    match amount.toNat?, mode.toNat?, seed.toNat?, span.toNat? with
+    | some amount, some mode, some seed, some span =>
+      let total := s.bytes.length
+      let C : Codecs := { member := fun _ => none, magic := fun _ => false }
+      let os : Nat → Nat := fun remaining => mkOrc mode seed span (total - remaining)
+      let rec go (fuel : Nat) (st : RcSt) (acc : List Nat) : List Nat :=
+        match fuel with
+        | 0 => acc.reverse
+        | f + 1 =>
+          match rcRead2 C os (fun _ _ _ _ => (0, 0)) 8 st amount with
+          | .ok (out, st') => if out.isEmpty then (0 :: acc).reverse else go f st' (out.length :: acc)
+          | .error _ => (999999999 :: acc).reverse
+      match rcOpen C s.bytes with
+      | .ok st =>
+        let sizes := go (total + 2) st []
+        (s, s!"sizes={sizes.length}:" ++ ",".intercalate ((sizes.take 16).map toString))
+      | .error _ => (s, "rc-open-error")
+    | _, _, _, _ => (s, "bad-op")
   | ["tok", set, skip] =>
     match parseSet set with
     | some d =>
